@@ -588,7 +588,8 @@ class Lower:
 
     def ref_arg(self, a, x):
         """address of an argument bound to a reference parameter; a temporary (call result, literal) is materialised first"""
-        if re.match(r'^\(?\w+\(.*\)\)?$', x) and not x.startswith('(*') and not x.startswith('((') or x.startswith('((struct') or re.match(r'^\(*-?\d', x):
+        if re.match(r'^\(?\w+\(.*\)\)?$', x) and not x.startswith('(*') and not x.startswith('((') or x.startswith('((struct') or re.match(r'^\(*-?\d', x) \
+                or re.match(r'^\(*"', x):          # a string literal bound to `const char* const&`: the pointer is the temporary
             ct = self.ctype(a['type'])
             t = 'vs_t%d' % self.tmp
             self.tmp += 1
@@ -1521,6 +1522,27 @@ class Lower:
             return ''
         if k == 'CXXRecordDecl':
             return ''
+        if k == 'DecompositionDecl':
+            # auto [a, b] = init;  for a tuple-like type the unit maps to a C struct: the object is kept in a temporary and every binding
+            # is a copy of the corresponding member (unit: BINDINGS = {C struct type: [member, ...]}); by-reference bindings are not lowered
+            if self.is_ref(self.qt(v)):
+                raise Abort('structured binding by reference in %s' % self.cur_fn)
+            ct = self.ctype(v['type'])
+            fields = getattr(self.u, 'BINDINGS', {}).get(ct)
+            binds = [c for c in self.inner(v) if c.get('kind') == 'BindingDecl']
+            inits = [c for c in self.inner(v) if c.get('kind') != 'BindingDecl']
+            if not fields or len(fields) != len(binds) or len(inits) != 1:
+                raise Abort('structured binding of %s in %s: no BINDINGS entry with %d members' % (ct, self.cur_fn, len(binds)))
+            if self.cur_spec.get('hoist_all') and self.loop_depth:
+                raise Abort('structured binding in a loop of a hoist_all function (%s)' % self.cur_fn)
+            x = self.E(inits[0])
+            pre = self.flush_pre(ind)
+            t = 'vs_dc%d' % self.tmp
+            self.tmp += 1
+            out = pre + pad + '%s %s = %s;\n' % (ct, t, x)
+            for b, f in zip(binds, fields):
+                out += pad + '__typeof__(%s.%s) %s = %s.%s;\n' % (t, f, b['name'], t, f)
+            return out
         if k != 'VarDecl':
             raise Abort('decl kind %s in %s' % (k, self.cur_fn))
         qt = self.qt(v)
@@ -2026,16 +2048,21 @@ def select_functions(ast, unit):
                 continue
             if w.get('sig_exact') and w['sig_exact'] != (n.get('type') or {}).get('qualType', ''):
                 continue
+            if w.get('class_targ'):                      # member of a class template specialisation picked by the class's template argument
+                par = ast.ctx_parent(n) or {}
+                targs = [(c.get('type') or {}).get('qualType', '') for c in par.get('inner', []) if isinstance(c, dict) and c.get('kind') == 'TemplateArgument']
+                if not any(w['class_targ'] in t for t in targs):
+                    continue
             if 'targs' in w and [c.get('value', (c.get('type') or {}).get('qualType')) for c in n.get('inner', []) if isinstance(c, dict) and c.get('kind') == 'TemplateArgument'] != w['targs']:
                 continue                      # explicit specialisation picked by its template arguments
-            key = (q, w.get('sig') or w.get('sig_exact'), str(w.get('targs')))
+            key = (q, w.get('sig') or w.get('sig_exact'), str(w.get('targs')) + str(w.get('class_targ')))
             cur = chosen.get(key)
             if cur is None or (has_body(n) and not has_body(cur[0])):
                 chosen[key] = (n, w)
-    missing = [w['q'] + (' ' + w['sig'] if w.get('sig') else '') for w in want if (w['q'], w.get('sig') or w.get('sig_exact'), str(w.get('targs'))) not in chosen]
+    missing = [w['q'] + (' ' + w['sig'] if w.get('sig') else '') for w in want if (w['q'], w.get('sig') or w.get('sig_exact'), str(w.get('targs')) + str(w.get('class_targ'))) not in chosen]
     if missing:
         raise Abort('functions listed in the unit but not found in the AST (renamed or removed?): %s' % ', '.join(missing))
-    return [chosen[(w['q'], w.get('sig') or w.get('sig_exact'), str(w.get('targs')))] for w in want]
+    return [chosen[(w['q'], w.get('sig') or w.get('sig_exact'), str(w.get('targs')) + str(w.get('class_targ')))] for w in want]
 
 
 def lower_unit(ast, unit):
